@@ -439,10 +439,16 @@ class SigmaRuleBase:
         # the special cases
         if len(self.tags) > 0:
             d["tags"] = [str(tag) for tag in self.tags]
+        # Timestamps (datetime objects) are accepted as dates when a rule is parsed, but only the
+        # date part is a valid Sigma date that can be parsed again.
         if self.date is not None:
-            d["date"] = self.date.isoformat()
+            d["date"] = (
+                self.date.date() if isinstance(self.date, datetime) else self.date
+            ).isoformat()
         if self.modified is not None:
-            d["modified"] = self.modified.isoformat()
+            d["modified"] = (
+                self.modified.date() if isinstance(self.modified, datetime) else self.modified
+            ).isoformat()
 
         # custom attributes
         d.update(self.custom_attributes)
